@@ -1,6 +1,9 @@
 import PdfModel.Core.Proto
 import PdfModel.Model.Storage
 import PdfModel.Drv.C02
+import PdfModel.Drv.Obj
+import PdfModel.Model.SaveBytes
+import PdfModel.Model.OpenBytes
 
 /-! Line-protocol handler for the C09 streams.
 
@@ -14,6 +17,14 @@ import PdfModel.Drv.C02
             the implementation's save failed, nothing to measure), `l:cached` reload the bytes and resolve
             every object number
   → one answer per op, `;`-separated (see `showRes`), or `load-err` when the base does not load
+  c09.bytes <start> <len> <startxref> <objs> <secs> <info> <ids> <ops>
+     the same base (object values reduced to their markers), the loaded info dictionary (`n`: none) and
+     the /ID strings (`~`-separated, `-`: none) as values in the notation of Drv/Obj.lean, and a history
+     `c=<val>` `u=<id>=<val>` `p` `f=<id>=<val>` `s` (`;`-separated) with full values: `save` is the byte
+     model `SaveBytes.saveB`; the answer of a save is `ok/<hex of the bytes it appended>`
+  c09.open <hex>              the byte-level open path (`OpenBytes.openB`: header, startxref, section readers for
+                              tables and streams, /Prev walk, merge) on a whole file
+                              → `ok <start> <size> <prev|n> <entries>` | `err` | `panic`
   c09.bytelen <n>             → byteLen n
   c09.rowbytes <aw> <bw> <e>  → the bytes `write_stream` emits for entry e
 -/
@@ -26,7 +37,7 @@ structure Tok where
   ok : Bool
 deriving Repr, DecidableEq
 
-def P : Params Tok := ⟨fun t => t.ok, ⟨0, true⟩⟩
+def P : Params Tok := ⟨fun t => t.ok, fun _ => ⟨0, true⟩, fun _ _ _ => ⟨0, true⟩⟩
 
 def parseTok (s : String) : Option Tok :=
   if s.endsWith "!" then do some ⟨← natOf (s.dropEnd 1).toString, false⟩
@@ -76,7 +87,9 @@ def parseOp (s : String) : Option DOp :=
   | ["r", id] => do some (.op (.resolve (← natOf id)))
   | ["s", lens, xl, tl] => do
     let ls ← parseLens lens
-    some (.op (.save ⟨lookupLen ls, ← natOf xl, ← natOf tl⟩))
+    let x ← natOf xl
+    let t ← natOf tl
+    some (.op (.save ⟨lookupLen ls, fun _ => x, fun _ => t⟩))
   | ["s"] => some .saveNoLayout
   | ["l", c] => do some (.reloadCheck (← boolOf c))
   | _ => none
@@ -113,13 +126,48 @@ def runOps (d : Doc Tok) : List DOp → List String → List String
     let (d', r) := step P d o
     runOps d' rest (showRes d d' r :: acc)
   | .saveNoLayout :: rest, acc =>
-    let (d', r) := step P d (.save ⟨fun _ => 0, 0, 0⟩)
+    let (d', r) := step P d (.save ⟨fun _ => 0, fun _ => 0, fun _ => 0⟩)
     match r with
     | .saved _ => runOps d' rest ("ok-but-no-layout" :: acc)
     | r => runOps d' rest (showRes d d' r :: acc)
   | .reloadCheck c :: rest, acc => runOps d rest (showReload d c :: acc)
 
 def rowEntry (s : String) : Option XRef := DrvC02.parseEntry s
+
+/-! ### the byte model -/
+
+abbrev BV := DrvObj.V
+
+def parseObjB (s : String) : Option (Obj BV) :=
+  match s.splitOn ":" with
+  | [off, id, gen, tok, mem] => do
+    let t ← parseTok tok
+    let ms ← if mem == "-" then some [] else mapM? parseTok (mem.splitOn "+")
+    some ⟨← natOf off, ← natOf id, ← natOf gen, .int t.m, ms.map fun m => .int m.m⟩
+  | _ => none
+
+abbrev BOp := SaveBytes.OpB (List UInt8)
+
+def parseBOp (s : String) : Option BOp :=
+  match s.splitOn "=" with
+  | ["c", v] => do some (.create (← DrvObj.valOf v))
+  | ["u", id, v] => do some (.update (← natOf id) (← DrvObj.valOf v))
+  | ["p"] => some .promise
+  | ["f", id, v] => do some (.fulfil (← natOf id) (← DrvObj.valOf v))
+  | ["s"] => some .save
+  | _ => none
+
+/-- the history through `SaveBytes.stepB`; a save answers with the bytes it appended -/
+def runB (b : SaveBytes.BDoc (List UInt8)) : List BOp → List String → List String
+  | [], acc => acc.reverse
+  | o :: rest, acc =>
+    let (b', r) := SaveBytes.stepB id b o
+    let a := match r with
+      | .ref i g => s!"R{i}.{g}"
+      | .failed o => o.tag
+      | .saved _ => "ok/" ++ hexOfBytes (b'.bytes.drop b.bytes.length)
+      | _ => "?"
+    runB b' rest (a :: acc)
 
 def handle (args : List String) : String :=
   match args with
@@ -134,6 +182,35 @@ def handle (args : List String) : String :=
       | .ok d => joinWith ";" (runOps d ops [])
       | o => s!"load-{o.tag}"
     | _, _, _, _, _, _, _ => "bad-request"
+  | ["c09.bytes", start, len, sx, objs, secs, info, ids, ops] =>
+    match natOf start, natOf len, natOf sx,
+          (if objs == "-" then some [] else mapM? parseObjB (objs.splitOn ",")),
+          (if secs == "-" then some [] else mapM? parseSec (secs.splitOn "|")),
+          (if info == "n" then some none else (DrvObj.valOf info).map some),
+          (if ids == "-" then some [] else mapM? (fun s => match DrvObj.valOf s with | some (.str b) => some b | _ => none) (ids.splitOn "~")),
+          (if ops == "-" then some [] else mapM? parseBOp (ops.splitOn ";")) with
+    | some st, some ln, some sx, some os, some ss, some inf, some ids, some ops =>
+      let raw : St BV := ⟨[], [], [], false, os, ss, ln, st, sx⟩
+      match reload raw false with
+      | .ok d =>
+        let d := { d with tr := { d.tr with info := inf } }
+        joinWith ";" (runB ⟨d, ids, []⟩ ops [])
+      | o => s!"load-{o.tag}"
+    | _, _, _, _, _, _, _, _ => "bad-request"
+  | ["c09.open", file] =>
+    match bytesOfHex file with
+    | some bs =>
+      let env : PdfLex.Env (List UInt8) :=
+        { parseReal := fun t => some t, resolveLen := fun _ _ => .err, allowMissingEndobj := false, decrypt := none, fileOffset := 0 }
+      let dec : PdfLex.Dict (List UInt8) → List UInt8 → Out (List UInt8) :=
+        fun d raw => match PdfLex.dictGet d OpenBytes.kFilter with | none => .ok raw | some _ => .err
+      match OpenBytes.openB env (3 * bs.length + 64) dec 64 bs with
+      | .ok (start, t, tr) =>
+        let size := match XrefTable.trailerSize tr with | .ok n => toString n | _ => "?"
+        let prev := match XrefTable.trailerPrev tr with | none => "n" | some (.ok p) => toString p | some _ => "?"
+        s!"ok {start} {size} {prev} {joinWith "," (t.map DrvC02.showEntry)}"
+      | o => o.tag
+    | none => "bad-request"
   | ["c09.bytelen", n] =>
     match natOf n with
     | some n => toString (byteLen n)
